@@ -150,8 +150,19 @@ def source_audit(mods_dir=None):
                     bad.append("%s:%d: %s" % (os.path.relpath(p, LEAN), i, line.strip()[:120]))
     return bad
 
-def axiom_audit(prop_id):
-    """run `#print axioms` for every theorem listed in MinLex/Props/<id>.lean (via Audit file)"""
+def axiom_audit(prop_id, names=None):
+    """run `#print axioms` for every theorem listed in the Audit files of the property"""
+    names = names or [prop_id]
+    thms_all, bad_all, out_all = {}, [], ""
+    for nm in names:
+        t, b, o = axiom_audit_one(nm)
+        if t:
+            thms_all.update(t)
+        bad_all += b
+        out_all += o
+    return thms_all, bad_all, out_all
+
+def axiom_audit_one(prop_id):
     audit = os.path.join(LEAN, "MinLex", "Audit", "%s.lean" % prop_id)
     if not os.path.exists(audit):
         return None, [], "no audit file"
